@@ -502,6 +502,31 @@ func fieldPathDesc(fa *ssa.FieldAddr, d int) string {
 			}
 		}
 	}
+	if descParamLabel != nil {
+		// symmetry check: which operand the object was taken from (a[0].sub vs b[0].sub)
+		v := fa.X
+		for i := 0; i < 14; i++ {
+			switch y := v.(type) {
+			case *ssa.FieldAddr:
+				v = y.X
+				continue
+			case *ssa.UnOp:
+				v = y.X
+				continue
+			case *ssa.IndexAddr:
+				v = y.X
+				continue
+			case *ssa.Index:
+				v = y.X
+				continue
+			case *ssa.Parameter:
+				if l, ok := descParamLabel[y]; ok {
+					return l + ">" + name
+				}
+			}
+			break
+		}
+	}
 	return name
 }
 
